@@ -146,8 +146,16 @@ pub fn plan_for(prop: &str, tier: Tier, kind: Kind) -> Plan {
         "C14" => {
             p.g4_line = 0;
             p.lenient = 60;
+            if tier == Tier::Quick {
+                p.g4_hdr = 5;
+            }
         }
-        "C10" => p.lenient = 50,
+        "C10" => {
+            p.lenient = 50;
+            if tier == Tier::Quick {
+                p.g4_hdr = 5;
+            }
+        }
         _ => {}
     }
     let _ = kind;
